@@ -60,7 +60,7 @@ pub fn check_case(c: &HexCase, tag: usize) -> Result<(), (String, String)> {
     };
     let path = scratch_dir().join(format!("c07-{}-{}.hex", rayon::current_thread_index().unwrap_or(0), tag % 4));
     let p2 = path.clone();
-    let res = catch_unwind(AssertUnwindSafe(|| if c.eeprom { write_eeprom_hex(p2, &br) } else { write_code_hex(p2, &br) }));
+    let res = catch_unwind(AssertUnwindSafe(|| crate::run::guarded(|| if c.eeprom { write_eeprom_hex(p2, &br) } else { write_code_hex(p2, &br) })));
     match res {
         Err(_) => return Err(("panic".into(), "the writer panicked".into())),
         Ok(Err(e)) => return Err(("write-error".into(), format!("the writer returned an error: {}", e))),
